@@ -69,6 +69,7 @@ fn main() {
         "c19" => ops_engine::c19(&mut rep, n, seed, thorough),
         "c09" => ops_api::c09(&mut rep, n, seed),
         "c11" => ops_api::c11(&mut rep, &aux, thorough, seed),
+        "c05scope" => ops_engine::c05_scope(&mut rep, seed, thorough),
         "compiler" => ops_engine::compiler_tie(&mut rep, n, seed, thorough),
         "c12classes" => ops_engine::c12_classes(&mut rep, n, seed, thorough),
         "c12sets" => ops_api::c12_sets(&mut rep, n, seed),
